@@ -471,7 +471,7 @@ V_HARNESS(h_data_units)
   f.last_field = in_u8() & 1; f.last_field_line = in_u8() & 31; f.last_frame_line = in_u16();
   f.last_data_unit_id = in_u8(); f.n_data_units_extracted_from_packet = in_u8();
   V_ASSUME(spi <= DUOUTN);
-  V_ASSUME(DUL < 5 || DU[1] + 4u >= DUL);          /* single iteration */
+  if (DUL >= 5 && DU[1] + 4u < DUL) DU[1] = (uint8_t) (DUL - 4 + (DU[1] & 3));   /* single iteration: every length >= DUL-4 stays possible */
   f.sliced_begin = out; f.sliced_end = out + DUOUTN; f.sp = out + spi;
 #if RAW
   f.raw = RAWBUF; f.raw_start[0] = 7; f.raw_start[1] = 320; f.raw_count[0] = 1; f.raw_count[1] = 1;
@@ -488,7 +488,7 @@ V_HARNESS(h_data_units)
   if (err == 0) { V_ASSERT(left == 0, "du_success_consumed_all"); V_REACH("ok"); }
   else { V_ASSERT(off + left == DUL, "du_error_points_at_offending_unit"); V_REACH("error"); }
   V_ASSERT(err == 0 || err == -1 || (err >= 0x7080600 && err <= 0x7080a00), "du_error_code_range");
-  if (err == 0 && f.sp == out + spi + 1) V_REACH("line_stored");
+  if (err == 0 && (unsigned) (f.sp - out) == spi + 1) V_REACH("line_stored");
   V_END();
 }
 
@@ -496,14 +496,20 @@ V_HARNESS(h_data_units)
 
 #ifdef G_SEQ
 /* =========================================================================================
- * 4. recovery: damaged packet D (start code + length concrete, everything else - flags, PTS, header length,
- *    data_identifier, all data units - symbolic), then three intact packets A, B, C (one Teletext line 7 each, symbolic
- *    payload and PTS: every packet starts a new frame).  Whatever D contains: frame B is delivered exactly as sent,
- *    with B's PTS (frame A may be lost or merged with damage: "all but at most the first frame").
+ * 4. recovery: damaged packet D (kind DKIND on the grid, payload and PTS symbolic), then three intact packets A, B, C
+ *    (one Teletext line 7 each, symbolic payload and PTS: every packet starts a new frame).  Whatever D carries: frame B
+ *    is delivered exactly as sent with B's PTS (frame A may be lost or merged with the damage: "all but at most the first
+ *    frame"), C is pending with its PTS, D's PTS never labels B.
+ *    DKIND: 0 PES flags byte wrong, 1 data_identifier reserved, 2 PES_header_data_length 0x23, 3 first unit on an illegal
+ *    line, 4 first unit's length crosses the packet, 5 foreign stream id, 6 no PTS at a frame start, 7 second unit
+ *    duplicates the line of the first, 8 D intact but one line number higher than A (A must not be merged into it).
  * ========================================================================================= */
+#ifndef DKIND
+#define DKIND 0
+#endif
 #define RLEN (4 * TSP)
 static uint8_t RS[RLEN];
-static void good_packet(uint8_t *t, unsigned cc, uint8_t *pay, uint8_t *ptsb)
+static void good_packet(uint8_t *t, unsigned cc, const uint8_t *pay, const uint8_t *ptsb, unsigned lofp)
 {
   uint8_t *p = t + (TS ? 4 : 0); unsigned i;
   if (TS) { t[0] = 0x47; t[1] = 0x40 | (PID >> 8); t[2] = PID & 0xFF; t[3] = 0x10 | (cc & 15); }
@@ -511,7 +517,7 @@ static void good_packet(uint8_t *t, unsigned cc, uint8_t *pay, uint8_t *ptsb)
   for (i = 0; i < 5; i++) p[9 + i] = ptsb[i];
   for (i = 14; i < 45; i++) p[i] = 0xFF;
   p[45] = 0x10;
-  put_unit(p + 46, 0x02, 0xE0 | 7);
+  put_unit(p + 46, 0x02, lofp);
   for (i = 0; i < 42; i++) p[46 + 4 + i] = pay[i];
   put_unit(p + 92, 0xFF, 0xFF); put_unit(p + 138, 0xFF, 0xFF);
 }
@@ -520,32 +526,38 @@ static int64_t pts_of(const uint8_t *b)
 
 V_HARNESS(h_recovery)
 {
-  static uint8_t pay[3][42], ptsb[3][5]; unsigned i, k, found = 0; uint8_t *d;
+  static uint8_t pay[4][42], ptsb[4][5]; unsigned i, k, found = 0; uint8_t *d;
   V_INIT();
   in_bytes(pay, sizeof pay); in_bytes(ptsb, sizeof ptsb); CANARY = in_u16();
+  good_packet(RS, 1, pay[3], ptsb[3], 0xE0 | (DKIND == 8 ? 8 : 7));
   d = RS + (TS ? 4 : 0);
-  in_bytes(d + 6, 178);
-  if (TS) { RS[0] = 0x47; RS[1] = 0x40 | (PID >> 8); RS[2] = PID & 0xFF; RS[3] = 0x10 | 1; }
-  d[0] = 0; d[1] = 0; d[2] = 1; d[3] = 0xBD; d[4] = 0; d[5] = 178;
-#ifdef DAMAGE_UNITS_ONLY                       /* header intact: the damage is in the data units (lengths concrete 0x2C) */
-  d[6] = 0x84; d[7] = 0x80; d[8] = 0x24; d[45] = 0x10; d[47] = 0x2C; d[93] = 0x2C; d[139] = 0x2C;
-#endif
-  for (k = 0; k < 3; k++) good_packet(RS + (k + 1) * TSP, 2 + k, pay[k], ptsb[k]);
+  switch (DKIND) {
+  case 0: d[6] = 0x04; break;
+  case 1: d[45] = 0x20; break;
+  case 2: d[8] = 0x23; break;
+  case 3: d[46 + 2] = 0xE0 | 3; break;
+  case 4: d[46 + 1] = 0xFF; break;
+  case 5: d[3] = 0xBE; break;
+  case 6: d[7] = 0x00; break;
+  case 7: put_unit(d + 92, 0x02, 0xE0 | 7); break;
+  default: break;
+  }
+  for (k = 0; k < 3; k++) good_packet(RS + (k + 1) * TSP, 2 + k, pay[k], ptsb[k], 0xE0 | 7);
   setup(&DXA, OUTA, &LOGA, TS, PID);
   V_ASSERT(vbi_dvb_demux_feed(&DXA, RS, RLEN), "recovery_feed_ok");
   check_inv(&DXA, OUTA);
-  /* frame B (packet index 1 of the good ones) must be among the delivered frames, exactly */
-  for (k = 0; k < LOGN; k++)
-    if (k < LOGA.calls && LOGA.pts[k] == pts_of(ptsb[1]) && LOGA.n[k] == 1 && LOGA.lines[k][0].line == 7
-        && LOGA.lines[k][0].id == VBI_SLICED_TELETEXT_B) {
-      int same = 1;
-      for (i = 0; i < 42; i++) if (LOGA.lines[k][0].data[i] != ref_rev8(pay[1][i])) same = 0;
-      if (same) found = 1;
-    }
-  V_ASSERT(LOGA.calls <= LOGN, "recovery_frames_bounded");
-  V_ASSERT(found, "recovery_frame_B_delivered_exactly");
-  /* C is pending with its own PTS */
+  V_ASSERT(LOGA.calls >= 1 && LOGA.calls <= 3, "recovery_frames_delivered");
+  /* the last delivered frame is B, exactly; the one before (if any) is A or damage, never labelled with B's PTS unless equal */
+  k = LOGA.calls - 1;
+  if (LOGA.calls >= 1 && LOGA.calls <= LOGN) {
+    V_ASSERT(LOGA.n[k] == 1 && LOGA.lines[k][0].line == 7 && LOGA.lines[k][0].id == VBI_SLICED_TELETEXT_B, "recovery_B_line");
+    V_ASSERT(LOGA.pts[k] == pts_of(ptsb[1]), "recovery_B_pts");
+    found = 1;
+    for (i = 0; i < 42; i++) if (LOGA.lines[k][0].data[i] != ref_rev8(pay[1][i])) found = 0;
+    V_ASSERT(found, "recovery_B_payload_exact");
+  }
   V_ASSERT(!DXA.new_frame && DXA.frame.sp == OUTA + 1 && DXA.frame_pts == pts_of(ptsb[2]) && OUTA[0].line == 7, "recovery_frame_C_pending");
+  for (i = 0; i < 42; i++) V_ASSERT(OUTA[0].data[i] == ref_rev8(pay[2][i]), "recovery_frame_C_payload");
   V_END();
 }
 #endif /* G_SEQ (part 2) */
